@@ -138,9 +138,7 @@ def dead_stores(fn):
 # (local names abstracted to `?`), one reason each
 DEAD_STORE_OK = {
     ('LinearCovariateModel', 'compute_sensitivities'): {
-        '? * ?': 'left-over bookkeeping after the flattening',
-        '?.T': 'left-over transposition; the coefficients are not read '
-               'again'},
+        '? * ?': 'left-over bookkeeping after the flattening'},
     ('GaussianModel', '_compute_sensitivities'): {
         'len(?)': 'left-over count'},
     ('LogNormalModel', '_compute_sensitivities'): {
@@ -600,10 +598,13 @@ def r00(ctx, repo, files=None):
                 'time points, as many individuals as covariates) take the '
                 'shortcut / the other layout although it does not apply'
                 % U(c)[:60])
-        # L25: `value or <number>` as a default for a numeric value: a valid
-        # 0 is replaced, a missing value that is NaN (truthy) is kept
+        # L25: `<looked-up value> or <number>` as a default for a data value:
+        # a valid 0 is replaced, a missing value that is NaN (truthy) is kept
+        # (a plain name, `n or 1`, is the conditional-expression idiom the
+        # library uses for optional counts)
         for b_ in ast.walk(fn):
             if isinstance(b_, ast.BoolOp) and isinstance(b_.op, ast.Or) \
+                    and not isinstance(b_.values[0], ast.Name) \
                     and isinstance(b_.values[-1], ast.Constant) \
                     and isinstance(b_.values[-1].value, (int, float)) \
                     and not isinstance(b_.values[-1].value, bool):
@@ -1077,8 +1078,11 @@ def r00(ctx, repo, files=None):
             # only *lost updates*: the dead value was computed from the
             # name's own previous value (`v = v + g` on a view, `x = x.T`);
             # a plain unused temporary changes nothing
-            if not any(isinstance(x, ast.Name) and x.id == nm
-                       for x in ast.walk(st.value)):
+            if not (isinstance(st.value, ast.BinOp) and any(
+                    isinstance(x, ast.Name) and x.id == nm
+                    for x in (st.value.left, st.value.right))):
+                # `v = v + g` / `v = v * k`; a method call kept for its
+                # validation (`x = x.reshape(..)`) is not an update
                 continue
             bad += 1
             ctx.violation(
